@@ -893,6 +893,185 @@ func (c *Ctx) callersBoundLen(fn *ssa.Function, bound int64) string {
 	return ""
 }
 
+// elementLenBounded: the narrowing is uintN(len(list[i])) where list is a slice of byte slices
+// made locally - in this function, or in a module helper that returns it - and every element ever
+// stored into it is stored at a place that is unreachable once the length of that element exceeds
+// a constant that fits N bits. Returns the constant and the builder's name.
+func (c *Ctx) elementLenBounded(in ssa.Instruction) (int64, string) {
+	cv, ok := in.(*ssa.Convert)
+	if !ok {
+		return 0, ""
+	}
+	bits, _, okI := isIntLike(cv.Type())
+	if !okI || bits >= 63 {
+		return 0, ""
+	}
+	max := int64(1)<<uint(bits) - 1
+	ln, ok := stripConv(cv.X).(*ssa.Call)
+	if !ok || calleeName(&ln.Call) != "builtin:len" {
+		return 0, ""
+	}
+	ld, ok := ln.Call.Args[0].(*ssa.UnOp)
+	if !ok || ld.Op != token.MUL {
+		return 0, ""
+	}
+	ia, ok := ld.X.(*ssa.IndexAddr)
+	if !ok {
+		return 0, ""
+	}
+	bound, where := c.listElemBound(ia.X, max, 0)
+	if where == "" || bound > max {
+		return 0, ""
+	}
+	return bound, where
+}
+
+func (c *Ctx) listElemBound(list ssa.Value, max int64, d int) (int64, string) {
+	switch x := unspill(list).(type) {
+	case *ssa.Extract:
+		call, ok := x.Tuple.(*ssa.Call)
+		if !ok || d > 1 {
+			return 0, ""
+		}
+		g := call.Call.StaticCallee()
+		if g == nil || len(g.Blocks) == 0 || !inModule(g) {
+			return 0, ""
+		}
+		// the receiving function only reads the list
+		for _, ref := range *x.Referrers() {
+			switch y := ref.(type) {
+			case *ssa.IndexAddr:
+				for _, r2 := range *y.Referrers() {
+					switch r2.(type) {
+					case *ssa.UnOp, *ssa.DebugRef:
+					default:
+						return 0, ""
+					}
+				}
+			case *ssa.DebugRef, *ssa.Range:
+			case *ssa.Call:
+				if calleeName(&y.Call) != "builtin:len" {
+					return 0, ""
+				}
+			default:
+				return 0, ""
+			}
+		}
+		var retv ssa.Value
+		for _, b := range g.Blocks {
+			ret, isRet := b.Instrs[len(b.Instrs)-1].(*ssa.Return)
+			if !isRet || b == g.Recover || x.Index >= len(ret.Results) {
+				continue
+			}
+			rv := unspill(ret.Results[x.Index])
+			if isNilConst(rv) {
+				continue
+			}
+			if retv != nil && retv != rv {
+				return 0, ""
+			}
+			retv = rv
+		}
+		if retv == nil {
+			return 0, ""
+		}
+		return c.listElemBound(retv, max, d+1)
+	case *ssa.MakeSlice:
+		fn := x.Parent()
+		worst := int64(-1)
+		for _, ref := range *x.Referrers() {
+			switch y := ref.(type) {
+			case *ssa.IndexAddr:
+				for _, r2 := range *y.Referrers() {
+					switch z := r2.(type) {
+					case *ssa.Store:
+						if z.Addr != ssa.Value(y) {
+							return 0, ""
+						}
+						k, ok := storeGuardedByLen(fn, z)
+						if !ok {
+							// or the comparisons in force at the store imply it (a bound on a sum
+							// that the length is part of, say)
+							a := getAn(fn)
+							facts := append([]cons{}, a.blockFacts(z.Block())...)
+							facts = append(facts, a.inv...)
+							l := a.lenOf(z.Val, 0)
+							if !l.ok || !a.prove(facts, konst(max).add(l, -1), 0) {
+								return 0, ""
+							}
+							k = max
+						}
+						if k > worst {
+							worst = k
+						}
+					case *ssa.UnOp, *ssa.DebugRef:
+					default:
+						return 0, ""
+					}
+				}
+			case *ssa.Return, *ssa.DebugRef, *ssa.Range:
+			case *ssa.Call:
+				if calleeName(&y.Call) != "builtin:len" {
+					return 0, ""
+				}
+			default:
+				return 0, ""
+			}
+		}
+		if worst < 0 {
+			return 0, ""
+		}
+		return worst, short(fn)
+	}
+	return 0, ""
+}
+
+// storeGuardedByLen: the store of a byte slice is unreachable once len(value) exceeds a constant
+// the function compares it with; returns the largest length that still reaches the store.
+func storeGuardedByLen(fn *ssa.Function, st *ssa.Store) (int64, bool) {
+	val := st.Val
+	limit := int64(-1)
+	w := &Walk{Fn: fn, Assume: func(v ssa.Value) (Val, bool) {
+		bo, okB := v.(*ssa.BinOp)
+		if !okB {
+			return unknown, false
+		}
+		isLen := func(x ssa.Value) bool {
+			cl, okC := stripConv(x).(*ssa.Call)
+			return okC && calleeName(&cl.Call) == "builtin:len" && cl.Call.Args[0] == val
+		}
+		if isLen(bo.X) {
+			if k, isK := constInt(bo.Y); isK && k >= 0 {
+				up := func(x int64) {
+					if x > limit {
+						limit = x
+					}
+				}
+				switch bo.Op { // the length exceeds every limit it is compared with
+				case token.GTR:
+					up(k)
+					return vBool(true), true
+				case token.GEQ:
+					up(k - 1)
+					return vBool(true), true
+				case token.LEQ:
+					up(k)
+					return vBool(false), true
+				case token.LSS:
+					up(k - 1)
+					return vBool(false), true
+				}
+			}
+		}
+		return unknown, false
+	}}
+	w.FromEntry()
+	if limit < 0 || w.Reached[st] || w.overflow {
+		return 0, false
+	}
+	return limit, true
+}
+
 func ruleLengthNarrowing(c *Ctx, r *Report) {
 	const rule = "length-narrowing"
 	c.boundsInit()
@@ -979,6 +1158,10 @@ func ruleLengthNarrowing(c *Ctx, r *Report) {
 			// helper, the caller, a deliberate truncation), or the encoder frames a wrapped length
 			if byteOfDecomposition(s.ins) {
 				r.OKTrivial(rule, key, c.ipos(s.ins), "one byte of a big-endian decomposition (value >> 8k), not a length")
+				continue
+			}
+			if bound, where := c.elementLenBounded(s.ins); where != "" {
+				r.OK(rule, key, c.ipos(s.ins), fmt.Sprintf("element of a list built in %s, which stores an element only after refusing one longer than %d", where, bound))
 				continue
 			}
 			if why, ok := reviewedNarrow[key]; ok {
@@ -1480,13 +1663,44 @@ func ruleKeyMaterialNotEmpty(c *Ctx, r *Report) {
 			decl[d] = true
 		}
 		key := short(fn) + ":" + inst.field
-		var store *ssa.Store
-		for _, b := range fn.Blocks {
-			for _, in := range b.Instrs {
-				if st, ok := in.(*ssa.Store); ok {
-					if _, f, _, ok := fieldOfAddr(st.Addr); ok && f == inst.field {
-						store = st
+		storeIn := func(g *ssa.Function) *ssa.Store {
+			var store *ssa.Store
+			for _, b := range g.Blocks {
+				for _, in := range b.Instrs {
+					if st, ok := in.(*ssa.Store); ok {
+						if _, f, _, ok := fieldOfAddr(st.Addr); ok && f == inst.field {
+							store = st
+						}
 					}
+				}
+			}
+			return store
+		}
+		store := storeIn(fn)
+		if store == nil {
+			// the tail of the decoder may be a function of its own: one whose result the decoder
+			// returns as it is, so that a refusal there is a refusal of the decoder
+			for _, call := range findCalls(fn, func(string) bool { return true }) {
+				g := call.Call.StaticCallee()
+				if g == nil || g.Pkg != fn.Pkg || len(g.Blocks) == 0 || storeIn(g) == nil {
+					continue
+				}
+				tail := true
+				for _, ref := range *call.Referrers() {
+					if _, isRet := ref.(*ssa.Return); !isRet {
+						if _, isDbg := ref.(*ssa.DebugRef); !isDbg {
+							tail = false
+						}
+					}
+				}
+				if tail {
+					fn = g
+					store = storeIn(g)
+					decl = map[ssa.Value]bool{}
+					for _, d := range declaredLengths(fn) {
+						decl[d] = true
+					}
+					break
 				}
 			}
 		}
